@@ -64,7 +64,7 @@ Values ==
      Imml("addi", "off", 9, 9, "L1", 0), Imml("addi", "bare", 9, 0, "L1", 0), Imml("addi", "bare", 8, 2, "L2", 0),
      Imml("lui", "hipos", 9, 0, "L1", Big), Imml("addi", "lopos", 9, 9, "L1", Big), Imml("lw", "lopos", 8, 9, "L2", Big),
      Imml("andi", "bare", 8, 8, "L1", 0), Imml("lw", "bare", 8, 2, "L2", 0),
-     Lil(9, "bare", "L1", 0), Lil(5, "pos", "L2", Big),
+     Lil(9, "bare", "L1", 0), Lil(5, "pos", "L2", Big), Lil(5, "pos", "L1", -2054), Lil(9, "pos", "L2", -2050),
      Dw("bare", "L1", 0), Dw("pos", "L2", Big), Dw("off", "L1", 0),
      Pj("call", "L1"), Li(9, 4660, 22136), Br("beq", 8, 0, "L2"),
      Align(4), Align(8), Data(1) >> \o GapItems
